@@ -16,11 +16,12 @@ text = f'''## 9. Seeded changes: which check catches which change
 Independent sub-agents were given **only the text of one property (later rounds: of all ten claimed
 properties) and a scratch git worktree** of the repository (under /tmp, nothing from /verif) and asked for
 changes that break a property, still pass the existing tests and need something specific to manifest, each
-with a demonstration that fails with the change and passes without it. Nine rounds: rounds 2–4 were told
+with a demonstration that fails with the change and passes without it. Ten rounds: rounds 2–4 were told
 what earlier rounds had produced and asked for different code locations, clauses and triggers (round 4: bugs
 needing two or more ordering constraints); rounds 5–9 were free to choose the property (round 8 with one
 emphasis per agent: interleavings, faults and retirements, harmless-looking refactorings, easily overlooked
-clauses; in round 9 two of the four agents hunted for defects of the *unchanged* code instead – section 2). Every change was
+clauses; in round 9 two of the four agents hunted for defects of the *unchanged* code instead – section 2; round 10, one property per agent again (C04, C12, C14, C20) with
+the triggers named in the request: faults, multi-step histories, unusual inputs, two cooperating sites). Every change was
 confirmed here before it was kept (`tools/confirm_seeded.py`, in the scratch worktree: demonstration on the
 clean tree → exit 0; `git apply`; demonstration → non-zero; the test files of the touched modules → pass;
 `./check <P> quick` with `VERIF_REPO=<worktree>`; `git checkout`). Kept changes live in `seeded/<id>/`
